@@ -814,6 +814,43 @@ func main() {
 			}
 			return true
 		})
+	case "stmts":
+		// gofacts stmts <file> <Func>: the top-level statements of the body, in order, as JSON
+		// [{line, kind, text, returns}] (text on one line; returns = the statement contains a return or a panic-like call)
+		fd := findFunc(file, os.Args[3])
+		if fd == nil {
+			fmt.Fprintln(os.Stderr, "function not found:", os.Args[3])
+			os.Exit(3)
+		}
+		a := &analyzer{fset: fset}
+		type st struct {
+			Line    int    `json:"line"`
+			Kind    string `json:"kind"`
+			Text    string `json:"text"`
+			Returns bool   `json:"returns"`
+		}
+		var out []st
+		for _, s := range fd.Body.List {
+			kind := strings.TrimPrefix(fmt.Sprintf("%T", s), "*ast.")
+			txt := strings.Join(strings.Fields(a.text(s)), " ")
+			rets := false
+			ast.Inspect(s, func(nn ast.Node) bool {
+				switch x := nn.(type) {
+				case *ast.ReturnStmt:
+					rets = true
+				case *ast.FuncLit:
+					return false
+				case *ast.CallExpr:
+					f := a.text(x.Fun)
+					if f == "panic" || strings.HasSuffix(f, "Panicf") || strings.HasSuffix(f, "Panic") || strings.HasSuffix(f, "Fatalf") || strings.HasSuffix(f, "Fatal") {
+						rets = true
+					}
+				}
+				return true
+			})
+			out = append(out, st{fset.Position(s.Pos()).Line, kind, txt, rets})
+		}
+		json.NewEncoder(os.Stdout).Encode(out)
 	case "const":
 		// gofacts const <file> <name>: the literal value of a package-level const/var
 		for _, d := range file.Decls {
